@@ -139,6 +139,23 @@ CONTROLS = [
     ('g18-run-swallows-quotes', 'G18', 'syn', 'sibling-start-swallowed', [(CD, 'is_not("`/\\"\\\\"),', 'is_not("`/\\\\"),', 1)]),
     ('g18-run-stops-at-dollar', 'G18', 'syn', 'stop-without-sibling', [(CD, 'is_not("`/\\"\\\\"),', 'is_not("`/\\"\\\\$"),', 1)]),
     ('g18-slash-before-star-taken', 'G18', 'syn', 'special-too-wide', [(CD, 'peek(not(alt((tag("/"), tag("*")))))', 'peek(not(alt((tag("/"), tag("/")))))', 1)]),
+    ('g19-end-label-commits-on-colon', 'G19', 'syn', 'conditional-step-in-tail', [
+        (PARSER + 'utils.rs', '// -----------------------------------------------------------------------------\n\n#[tracable_parser]\n#[packrat_parser]\npub(crate) fn white_space(',
+         "pub(crate) fn end_label<'a, O, F>(\n    mut f: F,\n) -> impl FnMut(Span<'a>) -> IResult<Span<'a>, Option<(Symbol, O)>>\nwhere\n    F: FnMut(Span<'a>) -> IResult<Span<'a>, O>,\n{\n    move |s: Span<'a>| {\n        let (s, a) = opt(symbol(\":\"))(s)?;\n        if let Some(a) = a {\n            let (s, b) = f(s)?;\n            Ok((s, Some((a, b))))\n        } else {\n            Ok((s, None))\n        }\n    }\n}\n\n// -----------------------------------------------------------------------------\n\n#[tracable_parser]\n#[packrat_parser]\npub(crate) fn white_space(", 1),
+        (PARSER + 'source_text/system_verilog_source_text.rs', '    let (s, (c, d)) = many_till(non_port_module_item, keyword("endmodule"))(s)?;\n    let (s, e) = opt(pair(symbol(":"), module_identifier))(s)?;',
+         '    let (s, (c, d)) = many_till(non_port_module_item, keyword("endmodule"))(s)?;\n    let (s, e) = end_label(module_identifier)(s)?;', 1)]),
+    ('g20-method-chain-popped', 'G20', 'syn', 'method_call:reversed', [(PARSER + 'expressions/subroutine_calls.rs',
+        '    let (s, sub_calls) = many0(pair(symbol("."), method_call_body))(s)?;\n    for (dot, body) in sub_calls {',
+        '    let (s, mut sub_calls) = many0(pair(symbol("."), method_call_body))(s)?;\n    while let Some((dot, body)) = sub_calls.pop() {', 1)]),
+    ('g21-pp-entry-runs-to-eof', 'G21', 'syn', 'preprocessor_text:not-total', [(PARSER + 'preprocessor/preprocessor.rs',
+        '    let (s, a) = many0(source_description)(s)?;', '    let (s, (a, _)) = many_till(source_description, eof)(s)?;', 1)]),
+    ('p3-include-macro-error-swallowed', 'P3', 'syn', 'preprocess_str->resolve_text_macro_usage:swallowed', [(PPF,
+        '                            resolve_depth + 1,\n                            include_depth,\n                        )? {\n                            let p = p.trim().trim_matches(\'"\');\n                            PathBuf::from(p)\n                        } else {\n                            PathBuf::from("")\n                        }',
+        '                            resolve_depth + 1,\n                            include_depth,\n                        ) {\n                            let p = p.trim().trim_matches(\'"\');\n                            PathBuf::from(p)\n                        } else {\n                            PathBuf::from("")\n                        }', 1),
+        (PPF, '                        if let Some((p, _, _)) = resolve_text_macro_usage(\n                            x,\n                            s,\n                            path.as_ref(),',
+         '                        if let Ok(Some((p, _, _))) = resolve_text_macro_usage(\n                            x,\n                            s,\n                            path.as_ref(),', 1)]),
+    ('x14-define-skipped-when-same-text', 'X14', 'syn', 'write-conditional:define', [(PPF, '                    defines.insert(id, Some(define));',
+        '                    let same = matches!(defines.get(&id), Some(Some(prev)) if prev.arguments == define.arguments);\n                    if !same {\n                        defines.insert(id, Some(define));\n                    }', 1)]),
     ('s1-version-stack-not-reset', 'S1', 'mir', 'not-reset:CURRENT_VERSION', [(PARSER + 'lib.rs', '    clear_directive();\n    clear_version();\n}', '    clear_directive();\n}', 1)]),
     ('s2-grammar-function-exported', 'S2', 'mir', 'source_text', [(PARSER + 'source_text/system_verilog_source_text.rs', 'pub(crate) fn source_text(s: Span)', 'pub fn source_text(s: Span)', 1)]),
     ('s3-scope-leak-on-error-path', 'S3', 'mir', 'text_macro_usage:unbalanced', [(CD,
